@@ -1,24 +1,59 @@
-"""Extra work of the thorough tier (stability sweep etc.)."""
-from . import engine, verus
-import os
+"""Extra work of the thorough tier: Z3-seed stability sweep, rule-validation harness, differential sweeps with the replay runner.
+None of this decides a property (the verifier's verdict does); everything is recorded in the evidence."""
+import random
+import time
+
+from . import verus
 
 
 def run(pid, units, results, seed):
     out = {'stability': {}}
     for u in units:
         r = results[u]
-        if not r.gen_path or r.status != 'ok':
+        if not r.gen_path or r.status != 'ok' or not r.gen_path.endswith('.rs') or 'kani' in r.gen_path:
             continue
         flips = []
         runs = []
+        rl = None
+        try:
+            import importlib
+            rl = getattr(importlib.import_module('units.' + u.lower().replace('-', '_')), 'RLIMIT', None)
+        except Exception:
+            pass
         for k in range(3):
-            s = (seed or 1) * 7919 + k * 104729 + 17
-            vr = verus.run(r.gen_path, None, 8, 1, s % 100000)
+            s = ((seed or 1) * 7919 + k * 104729 + 17) % 100000
+            vr = verus.run(r.gen_path, rl, 8, 1, s)
             ok = bool(vr['json'] and vr['json']['verification-results'].get('success'))
-            runs.append({'z3_seed': s % 100000, 'success': ok, 'wall': round(vr['wall'], 2)})
+            runs.append({'z3_seed': s, 'success': ok, 'wall': round(vr['wall'], 2)})
             if not ok:
                 gm = verus.GenMap(open(r.gen_path).read())
-                f, t, rl = verus.classify(vr, gm)
-                flips += [x['fn'] for x in f] + [x['fn'] for x in rl]
+                f, t, rlh = verus.classify(vr, gm)
+                flips += [x['fn'] for x in f] + [x['fn'] for x in rlh]
         out['stability'][u] = {'runs': runs, 'unstable_functions': sorted(set(flips))}
+    try:
+        from . import rulecheck
+        out['rule_validation'] = rulecheck.run()
+    except Exception as e:
+        out['rule_validation'] = {'status': 'error', 'detail': str(e)[:300]}
+    # differential sweeps on the tree as it is (recorded, never an alarm: only the verifier decides)
+    sweeps = {}
+    try:
+        from . import witness, witness_alpha, witness_header
+        rng = random.Random(seed or 1)
+        if any(u in witness.DELTA_UNITS for u in units):
+            t0 = time.time()
+            w = witness.search(pid, 'U-PARSE', {}, 'thorough', seed)
+            sweeps['delta_crash_search'] = {'seconds': round(time.time() - t0, 1), 'failing_input': w}
+        if 'U-LABEL' in units:
+            t0 = time.time()
+            sweeps['label_scoping_differential'] = {'failing_input': witness_alpha.search_labels(time.time() + 60, rng), 'seconds': round(time.time() - t0, 1)}
+        if 'U-SYN' in units:
+            t0 = time.time()
+            sweeps['placement_differential'] = {'failing_input': witness_alpha.search_syntax(time.time() + 60, rng), 'seconds': round(time.time() - t0, 1)}
+        if pid == 'C17':
+            t0 = time.time()
+            sweeps['header_differential'] = {'failing_input': witness_header.search(time.time() + 60, rng), 'seconds': round(time.time() - t0, 1)}
+    except Exception as e:
+        sweeps['error'] = str(e)[:300]
+    out['differential_sweeps'] = sweeps
     return out
